@@ -7,6 +7,7 @@
 package c15
 
 import (
+	"bytes"
 	"fmt"
 	"math/big"
 	"runtime"
@@ -30,11 +31,11 @@ import (
 func TestMain(m *testing.M) {
 	gen.Quiet()
 	ev.MustHit("replacement-accepted", "replacement-rejected", "evicted-by-limit", "reorg-reinjection-checked", "demoted-after-balance-drop", "local-exempt",
-		"mined-subset", "reorg", "gap-queued", "tiny-limits", "default-limits", "concurrent-run")
+		"mined-subset", "reorg", "gap-queued", "external-tx-under-queued-run", "external-tx-under-pending-run", "mined-offered-unpooled", "tiny-limits", "default-limits", "concurrent-run")
 	ev.Main(m, ev.Config{
 		Property: "C15",
 		Level:    "exploration",
-		Rule: "rapid state machine on a real BlockChain (fake PoW) behind a wrapper that owns the chain-head feed, so that the harness knows when the pool has finished a reset: actions AddLocal/AddRemote/AddRemotes of generated transactions (nonce in [stateNonce-1, pendingNonce+3], prices around the bump threshold of an existing same-nonce transaction, values around a poor sender's balance, duplicates), SetGasPrice, mining a generated subset of Pending(), reorganisation to a heavier sibling branch holding a different subset, draining a sender's balance; pool limits default or tiny, price bump 1/10/100. " +
+		Rule: "rapid state machine on a real BlockChain (fake PoW) behind a wrapper that owns the chain-head feed, so that the harness knows when the pool has finished a reset: actions AddLocal/AddRemote/AddRemotes of generated transactions (nonce in [stateNonce-1, pendingNonce+3], prices around the bump threshold of an existing same-nonce transaction, values around a poor sender's balance, duplicates), SetGasPrice, mining a generated subset of Pending(), reorganisation to a heavier sibling branch holding a different subset, draining a sender's balance, mining transactions of a pool sender that never passed through the pool, mining offered transactions whether or not the pool kept them; pool limits default or tiny, price bump 1/10/100. " +
 			"Plus a concurrent leg (6 submitting goroutines + a head-advancing goroutine, built with -race). non-trivial = a history with a gap-creating event (mined subset, reorg or balance drain); distinct by hash of the action list",
 		Assumptions: []string{
 			"affordability is per transaction (cost <= balance), as the statement says, not cumulative",
@@ -229,7 +230,15 @@ func (w *world) check(t TB, step string) {
 		}
 	}
 	if uint64(totalQueued) > w.cfg.GlobalQueue && nonLocalQueued > 0 {
-		t.Fatalf("%s: %d queued transactions in total, limit %d, and %d of them belong to non-local senders", step, totalQueued, w.cfg.GlobalQueue, nonLocalQueued)
+		detail := ""
+		for addr, txs := range queued {
+			var ns []uint64
+			for _, tx := range txs {
+				ns = append(ns, tx.Nonce())
+			}
+			detail += fmt.Sprintf(" %x(local=%v):%v", addr[:2], w.locals[addr], ns)
+		}
+		t.Fatalf("%s: %d queued transactions in total, limit %d, and %d of them belong to non-local senders [%s ]", step, totalQueued, w.cfg.GlobalQueue, nonLocalQueued, detail)
 	}
 }
 
@@ -293,6 +302,7 @@ func existing(pool *core.TxPool, addr common.Address, nonce uint64) *types.Trans
 func (w *world) add(t *rapid.T, tx *types.Transaction, local bool) {
 	from := w.sender(tx)
 	old := existing(w.pool, from, tx.Nonce())
+	sameNonce := old != nil
 	if np, nq := w.pool.Stats(); uint64(np+nq)+1 >= w.cfg.GlobalSlots+w.cfg.GlobalQueue {
 		// a full pool first evicts its cheapest transactions to make room; the
 		// predecessor may then vanish by eviction, which is not a replacement
@@ -309,7 +319,11 @@ func (w *world) add(t *rapid.T, tx *types.Transaction, local bool) {
 		err = w.pool.AddRemote(tx)
 	}
 	w.actions = append(w.actions, fmt.Sprintf("add(local=%v,from=%x,nonce=%d,price=%v,gas=%d,value=%v)=%v", local, from[:2], tx.Nonce(), tx.GasPrice(), tx.Gas(), tx.Value(), err))
-	w.maintained = err == nil
+	// an accepted submission ends with the pool's maintenance pass, except when it replaced a
+	// same-nonce transaction (TxPool.addTx skips promoteExecutables then): a full pool that
+	// evicted to make room for a replacement may hold demoted transactions above the queue
+	// limit until its next pass, while pending+queue stays within GlobalSlots+GlobalQueue
+	w.maintained = err == nil && !sameNonce
 	// under tiny limits a full pool evicts its cheapest transactions before inserting, so a
 	// predecessor can vanish by eviction rather than replacement: judged with ample limits only
 	if old != nil && old.Hash() != tx.Hash() && w.cfg.GlobalSlots > 1000 {
@@ -471,14 +485,92 @@ func TestPoolInvariant(t *testing.T) {
 				tx := gen.SignedTx(w.nc.Config, new(big.Int).Add(head.Number(), big.NewInt(1)), k, st.GetNonce(k.Addr), &to, value, 21000, big.NewInt(1), nil)
 				had, _ := w.pool.Content()
 				blk := w.mine(t, head, []*types.Transaction{tx}, 13)
+				w.announce(t, blk) // (the block is the new head whether or not the transaction fitted)
 				if len(blk.Transactions()) != 1 {
-					t.Skip("drain tx did not fit")
+					w.actions = append(w.actions, "drain(did not fit)")
+					return
 				}
-				w.announce(t, blk)
 				w.actions = append(w.actions, "drain")
 				w.gapEvt = true
 				if len(had[k.Addr]) > 0 {
 					w.labels["demoted-after-balance-drop"] = true
+				}
+			},
+			"external": func(t *rapid.T) {
+				// transactions of a pool sender that reach the chain without passing through this pool
+				// (sent through another node): the chain nonce moves under the pool's pending run and queue
+				head, st := w.headState(t)
+				k := rapid.SampledFrom(w.keys).Draw(t, "extsender")
+				n := rapid.IntRange(1, 2).Draw(t, "extcount")
+				to := gen.Keys[5].Addr
+				var txs []*types.Transaction
+				for i := 0; i < n; i++ {
+					txs = append(txs, gen.SignedTx(w.nc.Config, new(big.Int).Add(head.Number(), big.NewInt(1)), k, st.GetNonce(k.Addr)+uint64(i), &to, big.NewInt(1), 21000, big.NewInt(1), nil))
+				}
+				hadP, hadQ := w.pool.Content()
+				blk := w.mine(t, head, txs, 13)
+				w.announce(t, blk) // (the block is the new head whether or not the transactions fitted)
+				w.actions = append(w.actions, fmt.Sprintf("external(%x,%d)", k.Addr[:2], len(blk.Transactions())))
+				if len(blk.Transactions()) == 0 {
+					return
+				}
+				w.gapEvt = true
+				if len(hadQ[k.Addr]) > 0 && len(hadP[k.Addr]) == 0 {
+					w.labels["external-tx-under-queued-run"] = true
+				}
+				if len(hadP[k.Addr]) > 0 {
+					w.labels["external-tx-under-pending-run"] = true
+				}
+			},
+			"mineOffered": func(t *rapid.T) {
+				// a block made elsewhere from transactions this pool has been offered, whether or not it kept them
+				head, st := w.headState(t)
+				var hs []common.Hash
+				for h := range w.offered {
+					hs = append(hs, h)
+				}
+				sort.Slice(hs, func(i, j int) bool { return bytes.Compare(hs[i][:], hs[j][:]) < 0 })
+				byNonce := map[common.Address]map[uint64][]*types.Transaction{}
+				for _, h := range hs {
+					tx := w.offered[h]
+					from := w.sender(tx)
+					if byNonce[from] == nil {
+						byNonce[from] = map[uint64][]*types.Transaction{}
+					}
+					byNonce[from][tx.Nonce()] = append(byNonce[from][tx.Nonce()], tx)
+				}
+				var txs []*types.Transaction
+				unpooled := 0
+				for _, k := range w.keys {
+					n := st.GetNonce(k.Addr)
+					take := rapid.IntRange(0, 4).Draw(t, "takeoffered")
+					for i := 0; i < take; i++ {
+						cands := byNonce[k.Addr][n+uint64(i)]
+						if len(cands) == 0 {
+							break
+						}
+						tx := cands[rapid.IntRange(0, len(cands)-1).Draw(t, "which")]
+						if tx.Gas() > head.GasLimit() {
+							break
+						}
+						if !inPool(w.pool, tx.Hash()) {
+							unpooled++
+						}
+						txs = append(txs, tx)
+					}
+				}
+				if len(txs) == 0 {
+					t.Skip("no offered transaction is executable")
+				}
+				blk := w.mine(t, head, txs, 13)
+				w.announce(t, blk) // (the block is the new head whatever fitted)
+				w.actions = append(w.actions, fmt.Sprintf("mineOffered(%d of %d, %d not pooled)", len(blk.Transactions()), len(txs), unpooled))
+				if len(blk.Transactions()) > 0 {
+					w.gapEvt = true
+					w.labels["mined-offered"] = true
+					if unpooled > 0 {
+						w.labels["mined-offered-unpooled"] = true
+					}
 				}
 			},
 			"reorg": func(t *rapid.T) {
@@ -546,7 +638,7 @@ func TestPoolInvariant(t *testing.T) {
 						continue
 					}
 					if !inPool(w.pool, tx.Hash()) {
-						t.Fatalf("transaction %x (sender %x nonce %d) dropped out of the canonical chain by a reorganisation, is still valid at the new head, and was not pooled again", tx.Hash().Bytes()[:4], from[:4], tx.Nonce())
+						t.Fatalf("transaction %x (sender %x nonce %d) dropped out of the canonical chain by a reorganisation, is still valid at the new head, and was not pooled again (re-offering it now: %v)\nhistory:\n  %s", tx.Hash().Bytes()[:4], from[:4], tx.Nonce(), w.pool.AddRemote(tx), strings.Join(w.actions, "\n  "))
 					}
 					w.labels["reorg-reinjection-checked"] = true
 				}
